@@ -1922,6 +1922,15 @@ func (t *tScreen) inputLoop(stopQ chan struct{}) {
 		}
 		chunk := make([]byte, 128)
 		n, e := t.tty.Read(chunk)
+		if n > 0 {
+			// a reader may hand over its last bytes together
+			// with the error: they were read, so they count
+			select {
+			case t.keychan <- chunk[:n]:
+			case <-stopQ:
+				return
+			}
+		}
 		switch e {
 		case nil:
 		default:
@@ -1936,13 +1945,6 @@ func (t *tScreen) inputLoop(stopQ chan struct{}) {
 				}
 			}
 			return
-		}
-		if n > 0 {
-			select {
-			case t.keychan <- chunk[:n]:
-			case <-stopQ:
-				return
-			}
 		}
 	}
 }
